@@ -50,7 +50,8 @@ struct C21 : drv::Harness
 			else if (w < 86) p.ops.push_back(Op("restartB"));
 			else if (w < 88) p.ops.push_back(Op("refuse", { rng.range(1, 4) }));
 			else if (w < 89) p.ops.push_back(Op("eager", { rng.range(1, 3) }));            // at the next reconnect: 1 initiator, 2 acceptor, 3 both send as soon as their own side is established
-			else if (w < 94) p.ops.push_back(Op("flaky_reconnect", { rng.range(0, 6), rng.below(2), rng.below(2) }));   // drop, reconnect, send at once (arg1: initiator, arg2: acceptor), drop again after arg0 x latency/2, reconnect       // the next reconnect finds the acceptor unreachable for this many connect attempts
+			else if (w < 92) p.ops.push_back(Op("send_in_replay", { rng.range(1, 3), rng.range(1, 80) }));   // at the next reconnect: an application send lands inside a resend answer (arg0: 1 initiator, 2 acceptor, 3 either; arg1: how many scheduling points into it)
+			else if (w < 95) p.ops.push_back(Op("flaky_reconnect", { rng.range(0, 6), rng.below(2), rng.below(2) }));   // drop, reconnect, send at once (arg1: initiator, arg2: acceptor), drop again after arg0 x latency/2, reconnect       // the next reconnect finds the acceptor unreachable for this many connect attempts
 			else p.ops.push_back(Op("silence", { rng.range(1, 2000) }));
 		}
 		return p;
@@ -65,13 +66,22 @@ struct C21 : drv::Harness
 		Side A{"A", "CLI", "SRV", "/simfs/A", true}, B{"B", "SRV", "CLI", "/simfs/B", false};
 		Link link; NetCfg net; net.short_read = p.knob("short_read_pm") / 1000.0; net.short_write = p.knob("short_write_pm") / 1000.0; net.eagain = p.knob("eagain_pm") / 1000.0; net.dribble = p.knob("dribble_pm") / 1000.0; net.lat_ns = lat; net.jitter_ns = lat;
 		uint64_t net_seed = (uint64_t)p.knob("net_seed", 1); int conn_no = 0; int reconnects = 0, drops = 0, restarts = 0; bool expect_down = false;
-		int refuse_next = 0, eager_next = 0;
+		int refuse_next = 0, eager_next = 0, inreplay_next = 0, inreplay_after = 0;
 		bool replay_lost = false;   // a fault hit while the answer to a ResendRequest was still in flight
 		size_t smark[2] = { 0, 0 };
 		auto resend_in_progress = [&]() { bool rr = false; int k = 0; for (Side *x : { &A, &B }) { if (x->ses) for (size_t q = smark[k]; q < x->ses->states.size(); ++q) { int st = x->ses->states[q].second; if (st == States::st_resend_request_sent || st == States::st_resend_request_received) rr = true; } ++k; } return rr && link.pending > 0; };
 		Poco::Net::SocketAddress addr("127.0.0.1", 5000);
 
-		auto teardown_conns = [&]() { A.drop_conn(); B.drop_conn(); B.destroy_session(); };
+		auto dump_wire = [&]()
+		{
+			if (!verbose) return;       // diagnostic only, printed outside the event log
+			for (Side *x : { &A, &B }) if (x->impl)
+			{
+				std::vector<Msg> ms; std::string rest; split(x->impl->tx, ms, rest);
+				for (auto& m : ms) fprintf(stderr, "  wire conn#%d %s wrote %s\n", conn_no, x->name.c_str(), m.brief().c_str());
+			}
+		};
+		auto teardown_conns = [&]() { dump_wire(); A.drop_conn(); B.drop_conn(); B.destroy_session(); };
 		auto both_continuous = [&]() { return A.ses && B.ses && A.ses->st() == States::st_continuous && B.ses->st() == States::st_continuous; };
 		auto established = [&]() { return A.up() && B.up() && States::is_established(A.ses->st()) && States::is_established(B.ses->st()) && A.ses->st() != States::st_logon_received && B.ses->st() != States::st_logon_received; };
 		bool connect_nowait = false;
@@ -107,6 +117,18 @@ struct C21 : drv::Harness
 					if (!sd.up() || !States::is_established(sd.ses->st())) continue;
 					std::string id = sd.name + std::to_string(++sd.counter);
 					if (sd.ses->send(order(id))) { sd.sent.push_back(id); sim::count("send_racing_with_recovery"); }
+				}
+			}
+			if (inreplay_next)
+			{
+				// an application thread sends while its session's inbound thread is in the middle of answering a ResendRequest
+				int who = inreplay_next, after = inreplay_after, seen = 0; inreplay_next = 0;
+				auto answering = [&](Side& sd) { return sd.up() && sd.ses->st() == States::st_resend_request_received; };
+				if (sim::settle_watch([&]() { return (((who & 1) && answering(A)) || ((who & 2) && answering(B))) && ++seen >= after; }, 500000000ll))
+				{
+					Side& sd = (who & 1) && answering(A) ? A : B;
+					std::string id = sd.name + std::to_string(++sd.counter);
+					if (sd.ses->send(order(id))) { sd.sent.push_back(id); sim::count("send_inside_resend_answer"); }
 				}
 			}
 			// bounded wait for both sides to be (re-)established: logon + any resend exchange
@@ -146,6 +168,17 @@ struct C21 : drv::Harness
 			else if (op.k == "silence") sim::advance(op.arg(0) * 1000000ll);
 			else if (op.k == "refuse") refuse_next = (int)op.arg(0);
 			else if (op.k == "eager") eager_next = (int)op.arg(0);
+			else if (op.k == "send_in_replay")
+			{
+				// both sides send, the link drops with those bytes in flight, and during the recovery after the reconnect an
+				// application thread sends while its session's inbound thread is inside the resend answer
+				for (Side *sd : { &A, &B }) if (established()) { std::string id = sd->name + std::to_string(++sd->counter); if (sd->ses->send(order(id))) sd->sent.push_back(id); }
+				if (resend_in_progress()) { replay_lost = true; sim::count("probe_fault_while_replay_in_flight"); }
+				link.drop(); expect_down = true; ++drops;
+				sim::advance(2000000); sim::settle();
+				inreplay_next = (int)op.arg(0); inreplay_after = (int)op.arg(1);
+				reconnect(when);
+			}
 			else if (op.k == "drop")
 			{
 				if (op.arg(0)) { sim::advance(4 * lat + 1000000); sim::settle(); }
@@ -185,7 +218,7 @@ struct C21 : drv::Harness
 				if (op.k == "restartA") A.destroy_session();
 				reconnect(when);
 			}
-			if (op.k != "drop" && op.k[0] != 'r' && op.k[0] != 'f') { sim::advance(rng_delay(i)); sim::settle(); }
+			if (op.k != "drop" && op.k != "send_in_replay" && op.k[0] != 'r' && op.k[0] != 'f') { sim::advance(rng_delay(i)); sim::settle(); }
 			supervise(when);
 		}
 		// final phase: faults have stopped; give the pair bounded time to finish recovery
